@@ -2,7 +2,7 @@
 """Regenerates MANIFEST.json from the table below (kept in one place so it stays valid)."""
 import json
 
-REPO_FIXES = ["7e35490", "ecea711", "fc01ecc", "cd27f47", "463d510", "2d5f2e1", "19f78b7", "505b133", "a8ceba4", "52f9b16", "9d2a8be", "5232db2", "9ed931a", "72b95c5", "7d2242b", "bc9cd84", "5cca2dd", "b884f23"]
+REPO_FIXES = ["7e35490", "ecea711", "fc01ecc", "cd27f47", "463d510", "2d5f2e1", "19f78b7", "505b133", "a8ceba4", "52f9b16", "9d2a8be", "5232db2", "9ed931a", "72b95c5", "7d2242b", "bc9cd84", "5cca2dd", "b884f23", "14ac02c", "5e33b1d"]
 TECH = "bounded symbolic execution of the real Python code on z3 real proxies (own engine vf.symx) + SMT (z3; UF abstraction with exact NRA refinement); counterexamples replayed concretely"
 CLAIMED = {
     "C01": ("unit level: every _solv_outp_volt/_solv_inp_curr of the 11 kinds (const / 1-D / 2-D tables, phase modes, off flags, PMux k<=3) "
@@ -11,7 +11,7 @@ CLAIMED = {
             "<= 4 nodes); translator validation of every shim against the float path.",
             "Floats modelled as reals; numpy/scipy contract shims (DESIGN 1.4); io>=0; bounded table sizes and tree shapes.", "4/C01"),
     "C02": ("unit level: every _solv_pwr_loss with (vo, ii) produced by the component's own laws: P-L = |Vout|*Iout, 0<=L<=P, efficiency, "
-            "temperature for ALL real values (exact NRA); system level: the same per row on the real solve() table plus total rows and the "
+            "temperature for ALL real values (exact NRA), also when the same object was evaluated before at another operating point / ambient; system level: the same per row on the real solve() table plus total rows and the "
             "system power balance by a solver-checked telescoping argument (every hypothesis is its own obligation).",
             "Floats as reals; contract shims; polarity-keeping states only (overload is C03); shape catalogue bound.", "4/C02"),
     "C04": ("system level: source voltages symbolic including 0 V, phase-inactive elements by configuration; for every row "
@@ -34,7 +34,7 @@ CLAIMED = {
             "with symbolic limits and quantities, defaults, phase-silence; system level per-row cells and Subsystem/total roll-up with the real warning code.",
             "Floats as reals; supplied keys 1 (quick) / 2 (thorough) at a time; other quantities assumed inside default limits.", "4/C09"),
     "C10": ("real table validation, six flattening loops and _Interp1d/_Interp2d (manual clamping cascade) on proxies: grid exactness, linearity along "
-            "grid lines, cell envelope, clamping to the nearest edge, never NaN, flat table == constant in every law.",
+            "grid lines, cell envelope, clamping to the nearest edge, never NaN, flat table == constant in every law; repeated look-ups on one table / twin tables / after plot_interp.",
             "numpy.interp / scipy LinearNDInterpolator are contract models, differentially validated against the real libraries on every run; "
             "table sizes bounded; vi rows increasing.", "4/C10"),
     "C11": ("all 11 constructors on proxies with arguments of any sign: ValueError <=> documented validity predicate fails; stored / evaluated "
@@ -50,7 +50,7 @@ CLAIMED = {
     "C13": ("real _Component.from_file / LinReg.from_file on proxies through an in-memory TOML dict: loaded == constructed for every enumerated subset of optional "
             "keys, const/1-D/2-D forms, symbolic limits; KeyError / ValueError / integer panels.",
             "Floats as reals; toml contract; optional-key subsets none/all/single (quick), all (thorough).", "4/C13"),
-    "C14": ("real add_source/add_comp/change_comp/del_comp on 11 concrete base histories followed by 1 (quick) / 2 (thorough) SYMBOLIC calls (operation, kind, "
+    "C14": ("real add_source/add_comp/change_comp/del_comp on 19 concrete base histories followed by 1 (quick) / 2 (thorough) SYMBOLIC calls (operation, kind, "
             "del_childs and every name-valued argument are solver-chosen indices into existing names, rails and fresh strings); the well-formedness invariant is "
             "evaluated on the real graph/registries after every call, accepted or rejected.",
             "Solver-driven exhaustive walk over a bounded argument space (not an inductive proof - see DESIGN 4/C14); numeric parameters concrete.", "4/C14"),
